@@ -77,8 +77,8 @@ static int mode_gen(const char* self, int thin)
                             switch (rc) {
                             case 0: refr = 0.0; break; // the command-line default (below R0)
                             case 1: refr = R0; break;
-                            case 2: refr = R0 + 0.04 * (Rmax - R0); break;
-                            case 3: refr = R0 + 0.15 * (Rmax - R0); break;
+                            case 2: refr = R0 + 0.0412 * (Rmax - R0); break; // not 0.04: floor(125 * 0.04) sits on a discontinuity
+                            case 3: refr = R0 + 0.1537 * (Rmax - R0); break;
                             case 4: refr = R0 + 0.5077 * (Rmax - R0); break; // not the exact midpoint: floor(nr * fraction) is discontinuous there and the model's exact fraction need not round like the double
                             case 5: refr = 0.7081 * Rmax; break;
                             case 6: refr = Rmax - 0.01; break;
